@@ -650,7 +650,7 @@ def r6_reverse_changes_only_the_order(repo=None):
 
     per_mode = {}
     for mode in (False, True):
-        ev = pyorder.SeqEval(fn, FLAG, mode)
+        ev = pyorder.SeqEval(fn, FLAG, mode, neutral=(SL,))
         try:
             seq = ev.value(outer.iter, outer)
         except pyorder.Unknown as e:
@@ -759,10 +759,12 @@ def r6_reverse_changes_only_the_order(repo=None):
         seqs = {}
         bases = {}
         for mode in (False, True):
-            ev = pyorder.SeqEval(fn, FLAG, mode)
+            ev = pyorder.SeqEval(fn, FLAG, mode, neutral=(SL,))
             try:
                 seqs[mode] = [pyorder.elem_of(v) if not isinstance(v, pyorder.Elem) else v.i for v in ev.value(target_expr, at)]
             except pyorder.Unknown as e:
+                if r.findings:
+                    return r        # the selection already differs: reported above
                 raise AnalysisError("%s: order of the yielding loop not evaluated for reverse=%s (%s)" % (q, mode, e))
             bases[mode] = list(ev.bases)
         cons = "yield loop over %s" % norm(ast.unparse(target_expr))[:80]
